@@ -463,6 +463,28 @@ _SENT = re.compile(r'(?:^|(?<=[.\s]))\s*(?:Local\s+|Global\s+|#\[[^\]]*\]\s*)*'
                    r'(Section|Module\s+Type|Module|End|Variable|Variables|Hypothesis|Hypotheses|Context)\b\s*([A-Za-z0-9_\']*)', re.M)
 
 
+_KW = re.compile(r"\b(Section|Module\s+Type|Module|End|Variable|Variables|Hypothesis|Hypotheses|Context)\b\s*([A-Za-z0-9_\']*)")
+_PRE = re.compile(r'(?:^|(?<=[.\s]))\s*(?:Local\s+|Global\s+|#\[[^\]]*\]\s*)*\Z', re.M)
+
+
+def sent_finditer(txt: str):
+    """The matches of _SENT.finditer(txt) (group 1 = keyword, group 2 = name, same spans of the groups), found from the keyword
+    backwards instead of trying the optional prefix at every position of the file (17 s -> 0.3 s over the whole tree; checked equal
+    to _SENT.finditer on every file of rocq/ and on adversarial strings by tools/selftest_hygiene.py)."""
+    pos = 0
+    while True:
+        m = _KW.search(txt, pos)
+        if m is None:
+            return
+        # the prefix may not reach back into the previous match (pos); lookbehind and ^ still see the text before pos
+        k = m.start()
+        if _PRE.search(txt, max(pos, k - 200), k) is not None or (k - 200 > pos and _PRE.search(txt, pos, k) is not None):
+            yield m
+            pos = m.end() if m.end() > m.start() else m.start() + 1
+        else:
+            pos = m.start() + 1
+
+
 def scan_hygiene() -> list[str]:
     bad: list[str] = []
     files = sorted(ROCQ.rglob('*.v'))
@@ -472,7 +494,7 @@ def scan_hygiene() -> list[str]:
         for m in _FORBIDDEN.finditer(txt):
             bad.append(f'{rel}:{txt.count(chr(10), 0, m.start()) + 1}: {" ".join(m.group(0).split())}')
         stack: list[str] = []
-        for m in _SENT.finditer(txt):
+        for m in sent_finditer(txt):
             kw = ' '.join(m.group(1).split())
             if kw in ('Section', 'Module', 'Module Type'):
                 # `Module M := N.` / `Module Import`-style one-liners open nothing
